@@ -2,7 +2,7 @@
 lemmas in ProofsAll.v, so that every property theorem is spelled out in Props.v and closed by `exact <lemma>`."""
 import os
 HERE = os.path.dirname(os.path.dirname(os.path.dirname(os.path.abspath(__file__))))
-TH = os.path.join(HERE, "coq", "theories", "C14")
+TH = os.environ.get("C14_TH") or os.path.join(HERE, "coq", "theories", "C14")
 s = open(os.path.join(TH, "ProofsAll.v")).read()
 
 
@@ -18,7 +18,9 @@ items = [("C14_rejects", "all_rejects"), ("C14_well_formed", "all_well_formed"),
          ("C14_vertex_manifold", "all_vertex_manifold"),
          ("C14_tables", "all_tables"), ("C14_table_counts", "all_table_counts"),
          ("C14_params_honoured", "all_switches"), ("C14_ring_apex_defect", "ring_apex"), ("C14_ring_defect_clamped", "ring_clamp_range"),
-         ("C14_on_surface", "all_on_surface")]
+         ("C14_on_surface", "all_on_surface"),
+         ("C14_unit_triangle_counts", "tri_counts_all"), ("C14_flat_ring_apex_defect", "flat_ring_apex"),
+         ("C14_ring_triangles_congruent", "ring_congruent"), ("C14_ring_apex_defect_geometric", "ring_apex_geo"), ("C14_sphere_uv_latitudes", "sphere_latitudes"), ("C14_rotation_helpers", "rotation_helpers")]
 out = hdr
 for thm, lem in items:
     out += "Theorem %s%s\nProof. exact %s. Qed.\nPrint Assumptions %s.\n\n" % (thm, stmt(lem), lem, thm)
